@@ -449,7 +449,22 @@ def validate_evidence(ev):
                 raise HarnessError(f"evidence does not validate: {e.message}")
 
 
+def _pin_utf8(argv):
+    """Files with non-ASCII names/contents are written as UTF-8 by the verifier and read by the tool with the interpreter's default
+    encoding: pin that to UTF-8 (Python's UTF-8 mode) so that the checks do not depend on the caller's locale."""
+    import locale
+
+    if sys.flags.utf8_mode or os.environ.get("VF_UTF8_PINNED") or argv is not None:
+        return
+    if locale.getpreferredencoding(False).lower().replace("-", "") == "utf8":
+        return
+    os.environ["PYTHONUTF8"] = "1"
+    os.environ["VF_UTF8_PINNED"] = "1"
+    os.execv(sys.executable, [sys.executable, "-m", "vf.run"] + sys.argv[1:])
+
+
 def main(argv=None):
+    _pin_utf8(argv)
     ap = argparse.ArgumentParser()
     ap.add_argument("id")
     ap.add_argument("--tier", default=os.environ.get("VERIF_TIER", "quick"), choices=["quick", "thorough"])
